@@ -129,6 +129,39 @@ def unplaced_free(a):
 
 
 @spec
+def placed_valid(a, s):
+    """C03: the server belongs to the partition of the instance's allocation and offers its traits."""
+    return label_ok(s, a) and traits_ok(s, a)
+
+
+@spec
+def standing_ok(cell, servers):
+    """C03 standing clause: every placed instance is on a server of its partition that has its traits."""
+    return forall(lambda n: implies(n in cell.apps and cell.apps[n].server is not None and
+                                    cell.apps[n].server in servers,
+                                    placed_valid(cell.apps[n], servers[cell.apps[n].server])), 'Name')
+
+
+@spec
+def assigned_ok(a, servers):
+    """C03 assignment clause for an instance whose server changed in this cycle."""
+    return (servers[a.server]._state == State.up and placed_valid(a, servers[a.server]) and
+            (a.lease == 0 or old(clock_now()) + a.lease < servers[a.server].valid_until))
+
+
+@spec
+def lease_same(cell):
+    return forall(lambda n: implies(n in cell.apps, cell.apps[n].lease == old(cell.apps[n].lease)), 'Name')
+
+
+@spec
+def only_unplaced(cell):
+    """The pre-passes never assign: an instance keeps its server or loses it."""
+    return forall(lambda n: implies(n in cell.apps, cell.apps[n].server is None or
+                                    cell.apps[n].server == old(cell.apps[n].server)), 'Name')
+
+
+@spec
 def cell_inv(cell, servers):
     return (apps_ok(cell) and srv_ok(servers) and link_ok(cell, servers) and back_ok(cell, servers) and
             ident_ok(cell))
@@ -231,6 +264,7 @@ def put_done_on(s, app, servers):
             s.apps == dict_put(old(s.apps), app.name, app) and
             vec_eq(s.free_capacity, old(s.free_capacity) - app.demand) and
             app.placement_expiry is not None and
+            (app.lease == 0 or old(clock_now()) + app.lease < s.valid_until) and
             forall(lambda n: implies(n in servers and n != s.name, srv_same(servers[n])), 'Name'))
 
 
@@ -240,7 +274,7 @@ def put_done(app, servers):
 
 
 BUCKET_PUT_MODIFIES = [
-    'app.server', 'app.placement_expiry', 'alloc',
+    'app.server', 'app.placement_expiry', 'alloc', 'clock',
     ('Server.apps', 'lambda r: in_cell(r)'),
     ('Node.free_capacity', 'lambda r: True'),
     ('Node.affinity_counters', 'lambda r: True'),
@@ -251,12 +285,13 @@ BUCKET_PUT_MODIFIES = [
 contract(M + ':Bucket.put', types={'app': 'Application', 'return': 'Bool', 'node': 'Opt[Node]'},
          ghost={'servers': 'Dict[Name,Server]'},
          requires=['in_cell(self)', 'put_pre(app, servers)'],
-         ensures=['srv_ok(servers)', 'all_strategies_ok()', 'strat_nodes_ok()',
+         ensures=['srv_ok(servers)', 'all_strategies_ok()', 'strat_nodes_ok()', 'clock_now() >= old(clock_now())',
                   'implies(not result, put_failed(app, servers))',
                   'implies(result, put_done(app, servers))'],
          modifies=BUCKET_PUT_MODIFIES, props=['C01', 'C03'])
 invariant(M + ':Bucket.put', 0, 'while True',
           ['srv_ok(servers)', 'all_strategies_ok()', 'strat_nodes_ok()', 'put_failed(app, servers)',
+           'clock_now() >= old(clock_now())',
            'strategy.node == self and alive(strategy)',
            'node is not None and exists(lambda j: 0 <= j and j < len(self.children) and '
            '   self.children[j] == node, "Int")'])
@@ -297,7 +332,7 @@ def cycle_ctx(servers):
 
 
 FIND_MODIFIES = [
-    'alloc',
+    'alloc', 'clock',
     ('Application.server', 'lambda a: True'), ('Application.evicted', 'lambda a: True'),
     ('Application.unschedule', 'lambda a: True'), ('Application.placement_expiry', 'lambda a: True'),
     ('Application.renew', 'lambda a: True'), ('Application.identity', 'lambda a: True'),
@@ -318,13 +353,20 @@ contract(M + ':Cell._find_placements',
                    ('C05', 'groups_ok(self)'), ('C05', 'held_distinct(self)'), ('C05', 'held_not_free(self)'), ('C05', 'in_range_ok(self)'),
                    ('C05,C08', 'blacklist_ok(self)'),
                    # clause 4 holds when the walk starts (left by the previous cycle and the pre-passes)
-                   ('C05', 'all_unplaced_free(self)'), ('C05', 'ident_nonneg(self)')],
+                   ('C05', 'all_unplaced_free(self)'), ('C05', 'ident_nonneg(self)'),
+                   ('C03', 'standing_ok(self, servers)')],
          ensures=['apps_ok(self)', 'srv_ok(servers)', 'link_ok(self, servers)', 'back_ok(self, servers)',
                   'ident_ok(self)', 'all_strategies_ok()', 'strat_nodes_ok()', 'no_renew(self)',
                   ('C05', 'groups_ok(self)'), ('C05', 'held_distinct(self)'), ('C05', 'held_not_free(self)'), ('C05', 'in_range_ok(self)'),
                   # clause 4: at the end of the cycle an instance that is not placed holds no identity
                   ('C05', 'all_unplaced_free(self)'), ('C05', 'ident_nonneg(self)'),
-                  ('C05,C08', 'blacklist_ok(self)')],
+                  ('C05,C08', 'blacklist_ok(self)'),
+                  # C03 (a): whatever this walk assigned went to an up server of the right partition, with the
+                  # traits, and with the lease ending before the server's reboot time
+                  ('C03', 'forall(lambda n: implies(n in self.apps and self.apps[n].server is not None and '
+                          '  self.apps[n].server != old(self.apps[n].server), assigned_ok(self.apps[n], servers)), "Name")'),
+                  ('C03', 'standing_ok(self, servers)'), ('C03', 'lease_same(self)'),
+                  ('C03', 'clock_now() >= old(clock_now())')],
          modifies=FIND_MODIFIES, props=['C01', 'C03', 'C05', 'C08'])
 invariant(M + ':Cell._find_placements', 0, 'for app in queue',
           ['srv_ok(servers)', 'link_ok(self, servers)', 'back_ok(self, servers)', 'ident_ok(self)',
@@ -338,7 +380,16 @@ invariant(M + ':Cell._find_placements', 0, 'for app in queue',
            ('C05', 'forall(lambda n: implies(n in self.apps and not unplaced_free(self.apps[n]), '
                    '       self.apps[n] in evicted and _i <= qidx(queue, self.apps[n])), "Name")'),
            ('C05', 'ident_nonneg(self)'),
-           ('C05', 'forall(lambda a: implies(a in evicted, not a.blacklisted), "Application")')])
+           ('C05', 'forall(lambda a: implies(a in evicted, not a.blacklisted), "Application")'),
+           ('C03', 'standing_ok(self, servers)'),
+           ('C03', 'forall(lambda n: implies(n in self.apps and self.apps[n].server is not None and '
+                   '  self.apps[n].server != old(self.apps[n].server), assigned_ok(self.apps[n], servers)), "Name")'),
+           # an instance still to be walked has the server it had when the cycle started, unless it is a victim
+           ('C03', 'forall(lambda n: implies(n in self.apps and self.apps[n].server != old(self.apps[n].server), '
+                   '  0 <= qidx(queue, self.apps[n]) and queue[qidx(queue, self.apps[n])] == self.apps[n] and '
+                   '  (qidx(queue, self.apps[n]) < _i or self.apps[n] in evicted)), "Name")'),
+           ('C03', 'forall(lambda a: implies(a in evicted, evicted[a][0].name == old(a.server)), "Application")'),
+           ('C03', 'clock_now() >= old(clock_now())'), ('C03', 'lease_same(self)')])
 invariant(M + ':Cell._find_placements', 1, 'for evicted_app in reversed_queue',
           ['srv_ok(servers)', 'link_ok(self, servers)', 'back_ok(self, servers)', 'ident_ok(self)',
            'all_strategies_ok()', 'strat_nodes_ok()',
@@ -352,7 +403,16 @@ invariant(M + ':Cell._find_placements', 1, 'for evicted_app in reversed_queue',
                    '       self.apps[n] != app, self.apps[n] in evicted and '
                    '       qidx(queue, app) < qidx(queue, self.apps[n])), "Name")'),
            ('C05', 'ident_nonneg(self)'),
-           ('C05', 'forall(lambda a: implies(a in evicted, not a.blacklisted), "Application")')])
+           ('C05', 'forall(lambda a: implies(a in evicted, not a.blacklisted), "Application")'),
+           ('C03', 'standing_ok(self, servers)'),
+           ('C03', 'forall(lambda n: implies(n in self.apps and self.apps[n].server is not None and '
+                   '  self.apps[n].server != old(self.apps[n].server), assigned_ok(self.apps[n], servers)), "Name")'),
+           # an instance still to be walked has the server it had when the cycle started, unless it is a victim
+           ('C03', 'forall(lambda n: implies(n in self.apps and self.apps[n].server != old(self.apps[n].server), '
+                   '  0 <= qidx(queue, self.apps[n]) and queue[qidx(queue, self.apps[n])] == self.apps[n] and '
+                   '  (qidx(queue, self.apps[n]) < (qidx(queue, app) + 1) or self.apps[n] in evicted)), "Name")'),
+           ('C03', 'forall(lambda a: implies(a in evicted, evicted[a][0].name == old(a.server)), "Application")'),
+           ('C03', 'clock_now() >= old(clock_now())'), ('C03', 'lease_same(self)')])
 
 
 # ------------------------------------------------------------------ pre-passes of a cycle
@@ -384,6 +444,7 @@ def covers(queue, cell):
 
 
 PREPASS_MODIFIES = [
+    'clock',
     ('Application.server', 'lambda a: True'), ('Application.evicted', 'lambda a: True'),
     ('Application.unschedule', 'lambda a: True'), ('Application.placement_expiry', 'lambda a: True'),
     ('Application.identity', 'lambda a: True'), ('IdentityGroup.available', 'lambda g: True'),
@@ -395,10 +456,13 @@ contract(M + ':Cell._fix_invalid_placements',
          types={'queue': 'List[Application]', 'servers': 'Dict[Name,Server]'},
          requires=['covers(queue, self)', 'apps_ok(self)', 'srv_ok(servers)', 'back_ok(self, servers)',
                    'weak_link(self, servers)', 'ident_weak(self, servers)',
-                   ('C05', 'groups_ok(self)'), ('C05', 'held_distinct(self)'), ('C05', 'held_not_free(self)'), ('C05', 'ident_nonneg(self)'), ('C05', 'all_unplaced_free(self)')],
+                   ('C05', 'groups_ok(self)'), ('C05', 'held_distinct(self)'), ('C05', 'held_not_free(self)'), ('C05', 'ident_nonneg(self)'), ('C05', 'all_unplaced_free(self)'),
+                   ('C03', 'standing_ok(self, servers)')],
          ensures=['apps_ok(self)', 'srv_ok(servers)', 'back_ok(self, servers)', 'link_ok(self, servers)',
                   'ident_ok(self)',
-                  ('C05', 'groups_ok(self)'), ('C05', 'held_distinct(self)'), ('C05', 'held_not_free(self)'), ('C05', 'ident_nonneg(self)'), ('C05', 'all_unplaced_free(self)')],
+                  ('C05', 'groups_ok(self)'), ('C05', 'held_distinct(self)'), ('C05', 'held_not_free(self)'), ('C05', 'ident_nonneg(self)'), ('C05', 'all_unplaced_free(self)'),
+                  ('C03', 'standing_ok(self, servers)'), ('C03', 'clock_now() >= old(clock_now())'),
+                  ('C03', 'only_unplaced(self)')],
          modifies=[('Application.server', 'lambda a: True'), ('Application.evicted', 'lambda a: True'),
                    ('Application.identity', 'lambda a: True'), ('IdentityGroup.available', 'lambda g: True')],
          props=['C01', 'C05'])
@@ -406,40 +470,52 @@ invariant(M + ':Cell._fix_invalid_placements', 0, 'for app in queue',
           ['srv_ok(servers)', 'back_ok(self, servers)', 'weak_link(self, servers)', 'ident_weak(self, servers)',
            # instances already visited satisfy the strong link
            'forall(lambda j: implies(0 <= j and j < _i, placed_ok(queue[j], servers)), "Int")',
-           ('C05', 'groups_ok(self)'), ('C05', 'held_distinct(self)'), ('C05', 'held_not_free(self)'), ('C05', 'ident_nonneg(self)'), ('C05', 'all_unplaced_free(self)')])
+           ('C05', 'groups_ok(self)'), ('C05', 'held_distinct(self)'), ('C05', 'held_not_free(self)'), ('C05', 'ident_nonneg(self)'), ('C05', 'all_unplaced_free(self)'),
+           ('C03', 'standing_ok(self, servers)'), ('C03', 'clock_now() >= old(clock_now())'),
+           ('C03', 'only_unplaced(self)')])
 
 contract(M + ':Cell._handle_blacklisted_apps',
          types={'queue': 'List[Application]', 'servers': 'Dict[Name,Server]'},
          requires=['covers(queue, self)', 'apps_ok(self)', 'srv_ok(servers)', 'back_ok(self, servers)',
                    'link_ok(self, servers)', 'tree_ok(servers)', 'ident_ok(self)',
-                   ('C05', 'groups_ok(self)'), ('C05', 'held_distinct(self)'), ('C05', 'held_not_free(self)'), ('C05', 'ident_nonneg(self)'), ('C05', 'all_unplaced_free(self)')],
+                   ('C05', 'groups_ok(self)'), ('C05', 'held_distinct(self)'), ('C05', 'held_not_free(self)'), ('C05', 'ident_nonneg(self)'), ('C05', 'all_unplaced_free(self)'),
+                   ('C03', 'standing_ok(self, servers)')],
          ensures=['apps_ok(self)', 'srv_ok(servers)', 'back_ok(self, servers)', 'link_ok(self, servers)', 'ident_ok(self)',
                   ('C05,C08', 'blacklist_ok(self)'),
-                  ('C05', 'groups_ok(self)'), ('C05', 'held_distinct(self)'), ('C05', 'held_not_free(self)'), ('C05', 'ident_nonneg(self)'), ('C05', 'all_unplaced_free(self)')],
+                  ('C05', 'groups_ok(self)'), ('C05', 'held_distinct(self)'), ('C05', 'held_not_free(self)'), ('C05', 'ident_nonneg(self)'), ('C05', 'all_unplaced_free(self)'),
+                  ('C03', 'standing_ok(self, servers)'), ('C03', 'clock_now() >= old(clock_now())'),
+                  ('C03', 'only_unplaced(self)')],
          modifies=PREPASS_MODIFIES, props=['C01', 'C05', 'C08'])
 invariant(M + ':Cell._handle_blacklisted_apps', 0, 'for app in queue',
           ['srv_ok(servers)', 'back_ok(self, servers)', 'link_ok(self, servers)', 'ident_ok(self)',
            ('C05,C08', 'forall(lambda j: implies(0 <= j and j < _i and queue[j].blacklisted, '
                    '       queue[j].server is None), "Int")'),
-           ('C05', 'groups_ok(self)'), ('C05', 'held_distinct(self)'), ('C05', 'held_not_free(self)'), ('C05', 'ident_nonneg(self)'), ('C05', 'all_unplaced_free(self)')])
+           ('C05', 'groups_ok(self)'), ('C05', 'held_distinct(self)'), ('C05', 'held_not_free(self)'), ('C05', 'ident_nonneg(self)'), ('C05', 'all_unplaced_free(self)'),
+           ('C03', 'standing_ok(self, servers)'), ('C03', 'clock_now() >= old(clock_now())'),
+           ('C03', 'only_unplaced(self)')])
 
 contract(M + ':Cell._fix_invalid_identities',
          types={'queue': 'List[Application]', 'servers': 'Dict[Name,Server]'},
          requires=['covers(queue, self)', 'apps_ok(self)', 'srv_ok(servers)', 'back_ok(self, servers)',
                    'link_ok(self, servers)', 'tree_ok(servers)', 'ident_ok(self)', ('C05,C08', 'blacklist_ok(self)'),
-                   ('C05', 'groups_ok(self)'), ('C05', 'held_distinct(self)'), ('C05', 'held_not_free(self)'), ('C05', 'ident_nonneg(self)'), ('C05', 'all_unplaced_free(self)')],
+                   ('C05', 'groups_ok(self)'), ('C05', 'held_distinct(self)'), ('C05', 'held_not_free(self)'), ('C05', 'ident_nonneg(self)'), ('C05', 'all_unplaced_free(self)'),
+                   ('C03', 'standing_ok(self, servers)')],
          ensures=['apps_ok(self)', 'srv_ok(servers)', 'back_ok(self, servers)', 'link_ok(self, servers)', 'ident_ok(self)', ('C05,C08', 'blacklist_ok(self)'),
                   ('C05', 'forall(lambda n: implies(n in self.apps and self.apps[n].identity is not None and '
                           '  self.apps[n].identity_group_ref is not None, '
                           '  self.apps[n].identity < self.apps[n].identity_group_ref.count), "Name")'),
-                  ('C05', 'groups_ok(self)'), ('C05', 'held_distinct(self)'), ('C05', 'held_not_free(self)'), ('C05', 'ident_nonneg(self)'), ('C05', 'all_unplaced_free(self)')],
+                  ('C05', 'groups_ok(self)'), ('C05', 'held_distinct(self)'), ('C05', 'held_not_free(self)'), ('C05', 'ident_nonneg(self)'), ('C05', 'all_unplaced_free(self)'),
+                  ('C03', 'standing_ok(self, servers)'), ('C03', 'clock_now() >= old(clock_now())'),
+                  ('C03', 'only_unplaced(self)')],
          modifies=PREPASS_MODIFIES, props=['C01', 'C05'])
 invariant(M + ':Cell._fix_invalid_identities', 0, 'for app in queue',
           ['srv_ok(servers)', 'back_ok(self, servers)', 'link_ok(self, servers)', 'ident_ok(self)', ('C05,C08', 'blacklist_ok(self)'),
            ('C05', 'forall(lambda j: implies(0 <= j and j < _i and queue[j].identity is not None and '
                    '  queue[j].identity_group_ref is not None, '
                    '  queue[j].identity < queue[j].identity_group_ref.count), "Int")'),
-           ('C05', 'groups_ok(self)'), ('C05', 'held_distinct(self)'), ('C05', 'held_not_free(self)'), ('C05', 'ident_nonneg(self)'), ('C05', 'all_unplaced_free(self)')])
+           ('C05', 'groups_ok(self)'), ('C05', 'held_distinct(self)'), ('C05', 'held_not_free(self)'), ('C05', 'ident_nonneg(self)'), ('C05', 'all_unplaced_free(self)'),
+           ('C03', 'standing_ok(self, servers)'), ('C03', 'clock_now() >= old(clock_now())'),
+           ('C03', 'only_unplaced(self)')])
 
 
 @spec
@@ -454,14 +530,19 @@ contract(M + ':Cell._handle_inactive_servers',
          types={'servers': 'Dict[Name,Server]', 'to_be_moved': 'List[Application]'},
          requires=['apps_ok(self)', 'srv_ok(servers)', 'back_ok(self, servers)', 'link_ok(self, servers)',
                    'tree_ok(servers)', 'ident_ok(self)',
-                   ('C05', 'groups_ok(self)'), ('C05', 'held_distinct(self)'), ('C05', 'held_not_free(self)'), ('C05', 'ident_nonneg(self)'), ('C05', 'all_unplaced_free(self)')],
+                   ('C05', 'groups_ok(self)'), ('C05', 'held_distinct(self)'), ('C05', 'held_not_free(self)'), ('C05', 'ident_nonneg(self)'), ('C05', 'all_unplaced_free(self)'),
+                   ('C03', 'standing_ok(self, servers)')],
          ensures=['apps_ok(self)', 'srv_ok(servers)', 'back_ok(self, servers)', 'link_ok(self, servers)',
                   'ident_ok(self)',
-                  ('C05', 'groups_ok(self)'), ('C05', 'held_distinct(self)'), ('C05', 'held_not_free(self)'), ('C05', 'ident_nonneg(self)'), ('C05', 'all_unplaced_free(self)')],
+                  ('C05', 'groups_ok(self)'), ('C05', 'held_distinct(self)'), ('C05', 'held_not_free(self)'), ('C05', 'ident_nonneg(self)'), ('C05', 'all_unplaced_free(self)'),
+                  ('C03', 'standing_ok(self, servers)'), ('C03', 'clock_now() >= old(clock_now())'),
+                  ('C03', 'only_unplaced(self)')],
          modifies=PREPASS_MODIFIES + ['self.next_event_at'], props=['C01', 'C05', 'C08'])
 invariant(M + ':Cell._handle_inactive_servers', 0, 'for server in servers.values()',
           ['srv_ok(servers)', 'back_ok(self, servers)', 'link_ok(self, servers)', 'ident_ok(self)',
-           ('C05', 'groups_ok(self)'), ('C05', 'held_distinct(self)'), ('C05', 'held_not_free(self)'), ('C05', 'ident_nonneg(self)'), ('C05', 'all_unplaced_free(self)')])
+           ('C05', 'groups_ok(self)'), ('C05', 'held_distinct(self)'), ('C05', 'held_not_free(self)'), ('C05', 'ident_nonneg(self)'), ('C05', 'all_unplaced_free(self)'),
+           ('C03', 'standing_ok(self, servers)'), ('C03', 'clock_now() >= old(clock_now())'),
+           ('C03', 'only_unplaced(self)')])
 invariant(M + ':Cell._handle_inactive_servers', 1, 'for (name, app) in server.apps.items()',
           ['srv_ok(servers)', 'back_ok(self, servers)', 'link_ok(self, servers)', 'ident_ok(self)',
            'server.apps == at_loop_entry(server.apps)',
@@ -469,11 +550,15 @@ invariant(M + ':Cell._handle_inactive_servers', 1, 'for (name, app) in server.ap
            '       server.apps[to_be_moved[p].name] == to_be_moved[p] and _pos(to_be_moved[p].name) < _i), "Int")',
            'forall(lambda p, q: implies(0 <= p and p < q and q < len(to_be_moved), '
            '       _pos(to_be_moved[p].name) < _pos(to_be_moved[q].name)), "Int", "Int")',
-           ('C05', 'groups_ok(self)'), ('C05', 'held_distinct(self)'), ('C05', 'held_not_free(self)'), ('C05', 'ident_nonneg(self)'), ('C05', 'all_unplaced_free(self)')])
+           ('C05', 'groups_ok(self)'), ('C05', 'held_distinct(self)'), ('C05', 'held_not_free(self)'), ('C05', 'ident_nonneg(self)'), ('C05', 'all_unplaced_free(self)'),
+           ('C03', 'standing_ok(self, servers)'), ('C03', 'clock_now() >= old(clock_now())'),
+           ('C03', 'only_unplaced(self)')])
 invariant(M + ':Cell._handle_inactive_servers', 2, 'for app in to_be_moved',
           ['srv_ok(servers)', 'back_ok(self, servers)', 'link_ok(self, servers)', 'ident_ok(self)',
            'moved_ok(to_be_moved, server, _i)',
-           ('C05', 'groups_ok(self)'), ('C05', 'held_distinct(self)'), ('C05', 'held_not_free(self)'), ('C05', 'ident_nonneg(self)'), ('C05', 'all_unplaced_free(self)')])
+           ('C05', 'groups_ok(self)'), ('C05', 'held_distinct(self)'), ('C05', 'held_not_free(self)'), ('C05', 'ident_nonneg(self)'), ('C05', 'all_unplaced_free(self)'),
+           ('C03', 'standing_ok(self, servers)'), ('C03', 'clock_now() >= old(clock_now())'),
+           ('C03', 'only_unplaced(self)')])
 
 
 # ------------------------------------------------------------------ schedule_alloc / schedule
@@ -524,10 +609,15 @@ contract(M + ':Cell.schedule_alloc',
                 'util_queue': 'List[Tuple[Int,Ext,Ext,Int,Int,Application]]', 'queue': 'List[Application]'},
          requires=['alloc_in_cell(allocation, self)', 'cycle_pre(self, servers)', 'link_ok(self, servers)',
                    'ident_ok(self)', ('C05', 'groups_ok(self)'), ('C05', 'held_distinct(self)'), ('C05', 'held_not_free(self)'), ('C05', 'ident_nonneg(self)'), ('C05', 'all_unplaced_free(self)'), ('C05', 'in_range_ok(self)'),
-                   ('C05,C08', 'blacklist_ok(self)')],
+                   ('C05,C08', 'blacklist_ok(self)'),
+                   ('C03', 'standing_ok(self, servers)')],
          ensures=['cycle_pre(self, servers)', 'link_ok(self, servers)', 'ident_ok(self)', ('C05', 'groups_ok(self)'), ('C05', 'held_distinct(self)'), ('C05', 'held_not_free(self)'), ('C05', 'ident_nonneg(self)'), ('C05', 'all_unplaced_free(self)'),
                   ('C05', 'in_range_ok(self)'),
-                  ('C05,C08', 'blacklist_ok(self)')],
+                  ('C05,C08', 'blacklist_ok(self)'),
+                  ('C03', 'standing_ok(self, servers)'), ('C03', 'clock_now() >= old(clock_now())'),
+                  ('C03', 'forall(lambda n: implies(n in self.apps and self.apps[n].server is not None and '
+                          '  self.apps[n].server != old(self.apps[n].server), assigned_ok(self.apps[n], servers)), "Name")'),
+                  ('C03', 'lease_same(self)')],
          modifies=FIND_MODIFIES + [('Application.final_rank', 'lambda a: True'),
                                    ('Application.final_util', 'lambda a: True')],
          props=['C01', 'C03', 'C05'])
@@ -540,11 +630,17 @@ contract(M + ':Cell.schedule',
                    'ident_weak(self, MEMBERS)',
                    'forall(lambda l: implies(l in self.partitions, '
                    '       alloc_in_cell(self.partitions[l].allocation, self)), "Opt[Name]")',
-                   ('C05', 'groups_ok(self)'), ('C05', 'held_distinct(self)'), ('C05', 'held_not_free(self)'), ('C05', 'ident_nonneg(self)'), ('C05', 'all_unplaced_free(self)')],
+                   ('C05', 'groups_ok(self)'), ('C05', 'held_distinct(self)'), ('C05', 'held_not_free(self)'), ('C05', 'ident_nonneg(self)'), ('C05', 'all_unplaced_free(self)'),
+                   ('C03', 'standing_ok(self, MEMBERS)'),
+                   ('C03', 'forall(lambda l: implies(l in self.partitions, self.partitions[l].allocation.label == l), "Opt[Name]")')],
          ensures=[('C01', 'srv_ok(MEMBERS)'), ('C01', 'link_ok(self, MEMBERS)'), ('C01', 'back_ok(self, MEMBERS)'),
                   ('C01', 'apps_ok(self)'), ('C05', 'ident_ok(self)'),
                   # C05: unique, in range, held by every placed instance of a group, and only by placed ones
-                  ('C05', 'groups_ok(self)'), ('C05', 'held_distinct(self)'), ('C05', 'held_not_free(self)'), ('C05', 'ident_nonneg(self)'), ('C05', 'all_unplaced_free(self)'), ('C05', 'in_range_ok(self)')],
+                  ('C05', 'groups_ok(self)'), ('C05', 'held_distinct(self)'), ('C05', 'held_not_free(self)'), ('C05', 'ident_nonneg(self)'), ('C05', 'all_unplaced_free(self)'), ('C05', 'in_range_ok(self)'),
+                  # C03: assignments of this cycle, and the standing clause
+                  ('C03', 'forall(lambda n: implies(n in self.apps and self.apps[n].server is not None and '
+                          '  self.apps[n].server != old(self.apps[n].server), assigned_ok(self.apps[n], MEMBERS)), "Name")'),
+                  ('C03', 'standing_ok(self, MEMBERS)')],
          modifies=FIND_MODIFIES + [('Application.final_rank', 'lambda a: True'),
                                    ('Application.final_util', 'lambda a: True'),
                                    ('Allocation.label', 'lambda a: True'), 'self.next_event_at'],
@@ -553,7 +649,12 @@ invariant(M + ':Cell.schedule', 0, 'for (label, partition) in six.iteritems(self
 invariant(M + ':Cell.schedule', 1, 'for (label, partition) in six.iteritems(self.partitions)',
           ['cycle_pre(self, servers)', 'link_ok(self, servers)', 'ident_ok(self)', 'servers == MEMBERS',
            ('C05', 'groups_ok(self)'), ('C05', 'held_distinct(self)'), ('C05', 'held_not_free(self)'), ('C05', 'ident_nonneg(self)'), ('C05', 'all_unplaced_free(self)'), ('C05', 'in_range_ok(self)'),
-           ('C05,C08', 'blacklist_ok(self)')])
+           ('C05,C08', 'blacklist_ok(self)'),
+           ('C03', 'standing_ok(self, servers)'), ('C03', 'clock_now() >= old(clock_now())'),
+           ('C03', 'forall(lambda l: implies(l in self.partitions, self.partitions[l].allocation.label == l), "Opt[Name]")'),
+           ('C03', 'forall(lambda n: implies(n in self.apps and self.apps[n].server is not None and '
+                   '  self.apps[n].server != old(self.apps[n].server), assigned_ok(self.apps[n], servers)), "Name")'),
+           ('C03', 'lease_same(self)')])
 invariant(M + ':Cell.schedule', 2, 'for (appname, s_before, exp_before, s_after, exp_after) in placement', [])
 
 
@@ -635,6 +736,7 @@ def between_cycles(cell, servers):
 
 contract(M + ':Cell.add_app', types={'allocation': 'Allocation', 'app': 'Application'},
          requires=['between_cycles(self, MEMBERS)', 'ident_between(self)', 'ident_weak(self, MEMBERS)',
+                   ('C03', 'standing_ok(self, MEMBERS)'),
                    # the instance is new to the cell, or it is the cell's instance of that name being re-assigned
                    '(app.name in self.apps and self.apps[app.name] == app) or '
                    '(app.name not in self.apps and app.server is None and app.identity is None and '
@@ -643,7 +745,10 @@ contract(M + ':Cell.add_app', types={'allocation': 'Allocation', 'app': 'Applica
          ensures=[('C01', 'between_cycles(self, MEMBERS)'), 'app.name in self.apps and self.apps[app.name] == app',
                   ('C05', 'groups_ok(self)'), ('C05', 'held_distinct(self)'), ('C05', 'held_not_free(self)'),
                   ('C05', 'ident_nonneg(self)'), ('C05', 'all_unplaced_free(self)'), ('C05', 'refs_ok(self)'),
-                  ('C05', 'ident_weak(self, MEMBERS)')],
+                  ('C05', 'ident_weak(self, MEMBERS)'),
+                  # C03 standing clause: moving an instance to another allocation must leave it on a server of
+                  # its (new) partition with its (new) traits
+                  ('C03', 'standing_ok(self, MEMBERS)')],
          modifies=['self.apps', 'self.identity_groups', 'alloc', 'app.allocation', 'app.identity_group_ref',
                    ('Allocation.apps', 'lambda a: True'), ('Application.allocation', 'lambda a: True')],
          props=['C01', 'C05'])
